@@ -119,7 +119,7 @@ var _ utils.PriorityQueue
 
 //@ func index.newHnswVertex
 //@ props C02 C01
-//@ safety C01 C12
+//@ safety C01
 //@ requires [level] level >= 0 && level < 2147483648
 //@ ensures [fresh] ret != nil && fresh(ret)
 //@ ensures [fields] ret.id == id && ret.vector == vector && ret.metadata == metadata && ret.level == level && ret.deleted == 0
@@ -127,7 +127,7 @@ var _ utils.PriorityQueue
 
 //@ func (*index.hnswVertex).setLevel
 //@ props C02 C01
-//@ safety C01 C12
+//@ safety C01
 //@ requires [level] level >= 0 && level < 2147483648
 //@ ensures [sizes] len(this.edges) == level + 1 && len(this.edgeMutexes) == level + 1 && fresh(this.edges)
 //@ modifies this.edges, this.edgeMutexes
@@ -135,33 +135,33 @@ var _ utils.PriorityQueue
 // graph maintenance touches links only: never the shard maps, the counters, or a vertex's id/vector/metadata/level/deleted
 //@ func (*index.Hnsw).greedyClosestNeighbor
 //@ props C02 C01
-//@ safety C01 C12
+//@ safety C01
 //@ modifies nothing
 
 //@ func (*index.Hnsw).searchLevel
 //@ props C02 C01
-//@ safety C01 C12
+//@ safety C01
 //@ modifies cells[utils.minPriorityQueue], cells[utils.maxPriorityQueue], mem[*utils.PriorityQueueItem]
 
 //@ func (*index.Hnsw).selectNeighbors
 //@ props C02 C01
-//@ safety C01 C12
+//@ safety C01
 //@ modifies cells[utils.minPriorityQueue], cells[utils.maxPriorityQueue], mem[*utils.PriorityQueueItem]
 
 //@ func (*index.Hnsw).selectNeighborsHeuristic
 //@ props C02 C01
-//@ safety C01 C12
+//@ safety C01
 //@ modifies cells[utils.minPriorityQueue], cells[utils.maxPriorityQueue], mem[*utils.PriorityQueueItem]
 
 //@ func (*index.Hnsw).pruneNeighbors
 //@ props C02 C01
-//@ safety C01 C12
+//@ safety C01
 //@ modifies mem[hnswEdgeSet], cells[utils.minPriorityQueue], cells[utils.maxPriorityQueue], mem[*utils.PriorityQueueItem]
 
 // C02: Insert against the finite-map specification
 //@ func (*index.Hnsw).Insert
 //@ props C02 C04
-//@ safety C01 C12
+//@ safety C01
 //@ requires [shards] wfShards(this)
 //@ requires [level] vertexLevel >= 0 && vertexLevel < 2147483648
 //@ ensures [exists] old(live(this, id)) ==> err == ItemAlreadyExistsError && this.len == old(this.len) && this.bytesSize == old(this.bytesSize) && live(this, id) && vertexOf(this, id) == old(vertexOf(this, id))
@@ -176,7 +176,7 @@ var _ utils.PriorityQueue
 // C02: Remove against the finite-map specification
 //@ func (*index.Hnsw).Remove
 //@ props C02 C04
-//@ safety C01 C12
+//@ safety C01
 //@ requires [shards] wfShards(this)
 //@ requires [stored] wfStored(this)
 //@ ensures [absent] !old(live(this, id)) ==> err == ItemNotFoundError && this.len == old(this.len) && this.bytesSize == old(this.bytesSize) && !live(this, id)
@@ -197,7 +197,7 @@ var _ utils.PriorityQueue
 
 //@ func (*index.Hnsw).Search
 //@ props C01 C09
-//@ safety C01 C12
+//@ safety C01
 //@ modifies cells[utils.minPriorityQueue], cells[utils.maxPriorityQueue], mem[*utils.PriorityQueueItem]
 
 // ---------------------------------------------------------------------------------------------
@@ -270,21 +270,18 @@ var _ utils.PriorityQueue
 
 //@ func (index.Metadata).saveKV
 //@ props C08
-//@ safety C12
 //@ trust check lossless
 //@ requires [fits] len(k) <= 255 && len(v) <= 65535
 //@ modifies nothing
 
 //@ func (index.Metadata).save
 //@ props C08
-//@ safety C12
 //@ trust check lossless
 //@ requires [fits] metaFits(this)
 //@ modifies nothing
 
 //@ func (*index.Metadata).loadKV
 //@ props C08
-//@ safety C12
 //@ at call Reader.Read
 //@ requires [C08 full-read] false
 //@ end
@@ -293,7 +290,6 @@ var _ utils.PriorityQueue
 
 //@ func (index.Metadata).load
 //@ props C08
-//@ safety C12
 //@ at call Reader.Read
 //@ requires [C08 full-read] false
 //@ end
